@@ -41,10 +41,10 @@ def restricted(text):
     for stmt in body.split(";"):
         s = stmt.strip()
         if s.startswith("assign"):
-            if not re.fullmatch(r"assign\s+[A-Za-z][A-Za-z\d_]*\s*=\s*([A-Za-z][A-Za-z\d_]*|1'[bhd][01])\s*", s):
+            if not re.fullmatch(r"assign\s+[A-Za-z_][A-Za-z\d_$]*\s*=\s*([A-Za-z_][A-Za-z\d_$]*|1'[bhd][01])\s*", s):
                 return "assign with expression"
         elif re.match(r"(and|nand|or|nor|xor|xnor|buf|not)\b", s):
-            if not re.fullmatch(r"[a-z]+\s+[A-Za-z][A-Za-z\d_]*\s*\([^()]*\)", s, re.S):
+            if not re.fullmatch(r"[a-z]+\s+[A-Za-z_][A-Za-z\d_$]*\s*\([^()]*\)", s, re.S):
                 return "unnamed / multiple / expression primitive instance"
     if re.search(r"\)\s+;", body):
         return "whitespace between ) and ;"
